@@ -24,7 +24,12 @@ PLAN = dict(
                     "and the failure is an occurrence resolved to a binder of another chirality/type). Theorems (no axioms): "
                     "codegen_total for the generic code generator and its x86-64 / AArch64 / RISC-V instances, linearization "
                     "preserves typing, wt_ax -> prog_ok, totality of focusing and shrinking on typed programs, the refutation of "
-                    "unguarded fun2core typing preservation, and the composition with the three unproved typing links as hypotheses",
+                    "unguarded fun2core typing preservation, and the composition with the three unproved typing links as hypotheses; "
+                    "round 2: shrinking preserves typing for the WHOLE language (wt_ax + pre_linear + binders_ok of the output) on the boolean "
+                    "fragment frag2t_prog of Sem/FsFrag2.v (identifiers with equal ids spelled alike, declared parameter/field types, globally "
+                    "distinct binders): C12_shrink_preserves_typing_fragment2; the unguarded form, i.e. hypothesis H_shrink_wt, is REFUTED "
+                    "(wt_fs ignores parameter types, wt_ax demands declared ones: C12_shrink_preserves_typing_refuted); C12_pipeline_wt_fragment2 "
+                    "is the composition with the shrink link discharged on the fragment",
         assumptions=["the checkers Sem/CoreCheck.v, Sem/FsCheck.v, Sem/AxCheck.v, Model/LinCheck.v ARE the typing disciplines of "
                      "the intermediate languages (/repo has no type checker for Core or AxCut; they were written from the "
                      "invariants the passes and reference machines rely on)",
